@@ -344,6 +344,16 @@ class Session:
             kw = self._move_kwargs(d)
             pt = kw.pop("point", None)
             return g.probe(d["mode"], pt, **kw) if pt is not None else g.probe(d["mode"], **kw)
+        if c in ("to_absolute", "to_distance_mode"):
+            # conversion queries (beyond the listed properties; the tracer is built on them): nothing is written, nothing changes
+            from gscrib.geometry import Point
+            r = getattr(g, c)(Point(*d["ax"]))
+            self.conv = [[qnum(x, self.U)["v"] for x in r]]
+            return None
+        if c == "to_absolute_list":
+            rs = g.to_absolute_list([tuple(p) for p in d["pts"]])
+            self.conv = [[qnum(x, self.U)["v"] for x in r] for r in rs]
+            return None
         if c == "set_distance_mode":
             return g.set_distance_mode(d["mode"])
         if c == "ctx_enter":
@@ -586,6 +596,7 @@ class Session:
         self.fault_armed = fault
         sh_before = self.scale_hook is not None and self._hook_registered(self.scale_hook)      # in force DURING this call
         self.hook_log.clear()
+        self.conv = []
         xf = self.observe_xf() if self.with_xf else None
         out = "ok"
         try:
@@ -601,6 +612,8 @@ class Session:
             "lines": self.lines_of(self.rw.take()),
             "rep": self.snapshot(),
             "hooks": [dict(h) for h in self.hook_log],
+            "conv": list(self.conv),
+            "pts": [[qnum(x, self.U) for x in (list(p) + [None] * (3 - len(p)))] for p in d.get("pts", [])],
             "ph": self.probe_on,                      # after the call, by the recorder's own bookkeeping of add_hook / remove_hook
             "fault": fault,
             # a hook that alters what was asked for was at work: the scale hook in force, or the filter hook dropped a word
